@@ -20,7 +20,6 @@ NA = {
 }
 PENDING = {
 "C11":"claimed in DESIGN.md; check under construction, not registered yet",
-"C12":"claimed in DESIGN.md; check under construction, not registered yet",
 "C14":"claimed in DESIGN.md; check under construction, not registered yet",
 }
 PY = "/venv/bin/python /verif/run_check.py"
@@ -30,6 +29,10 @@ CHECKS = {
   note="Trusted: the generated class models are representative of user classes; a fault at the first statement stands for a fault anywhere in the callback; savorize hooks raise only SeasoningError (the documented protocol). Not decided: the clause over arbitrary input texts (observations are listed in the evidence, never raised).",
   technique="deterministic fault injection at a callback seam, enumerated over every callback invocation; Hypothesis as seeded case generator/shrinker"),
 }
+CHECKS["C12"] = dict(engine="iosim", category="fault_enumeration", design_ref="DESIGN.md §5",
+  text="For each seeded (class model, type, document) the load is performed from a str (reference), a Path on a simulated mount (patched io.open; real io stack on a stub raw device), StringIO, BytesIO, real files, TextIOWrapper/BufferedReader over the stub device and duck-typed read(n) streams, under chunk schedules that include a split at every offset (every multi-byte interior, CR|LF and 4096/8192 block boundary when the document is large); all canonical outcomes must be equal. For each seeded (dumper, value) every indent x ensure_ascii is dumped to a str path, Path (fresh and pre-existing), StringIO, duck sinks with/without flush, a real file and TextIOWrapper over the stub device with short raw writes; sink content must equal the dumps text exactly. Separately, one read/write/open error or EINTR per run is injected at enumerated offsets with a deliberately relaxed oracle (may raise; if it returns, value/text must be right).",
+  note="Trusted: UTF-8 locale; the stub raw device and duck streams honour the RawIOBase / read(n) / write(s) contracts; message normalisation (source names, str-only snippets, byte positions, CR vs LF spelling) does not hide a real difference. Not decided: other locales, Windows newline translation, durability of partially written files.",
+  technique="deterministic I/O simulation: stub raw device and duck streams under enumerated chunk schedules and single injected I/O faults; Hypothesis as seeded case generator/shrinker")
 ENGINES = {
  "cbfault": ("sim/engines/cbfault.py", ["C08"], "callback-seam fault enumeration over generated class models"),
  "iosim": ("sim/engines/iosim.py", ["C12"], "simulated raw device / duck streams: chunk schedules and I/O fault enumeration"),
